@@ -468,5 +468,11 @@ func execOp(line string) (res string) {
 		}
 		return execXk(a[0], a[1], a[2])
 	}
+	if f, ok := extraOps[op]; ok {
+		return f(a)
+	}
 	return bad
 }
+
+// extraOps: ops registered by other files of the harness (field.*, jac.*, mem.* ...)
+var extraOps = map[string]func(a []string) string{}
